@@ -159,12 +159,37 @@ def run(ctx):
     tl += ["hdr.rt\tctype\t" + hx(U(c)) for c in ctypes]
     for kind in ("subject", "comments", "messageid", "contentid"):
         tl += ["hdr.rt\t%s\t%s" % (kind, hx(U(v))) for v in ["plain", "é", "a\r\nb", "", "x" * 500, "  lead and trail  ", "<id@host>", "a;b, c"]]
+    # ---- Date against the Coq model of date.rs + httpdate (Model/Date.v): display of the same seconds, parse of what either writes
+    #      and of hostile variations in all three formats httpdate accepts
+    secs = [int(l.split("\t")[2]) for l in tl if l.startswith("hdr.rt\tdate")] + [253402300800, 253402300801, 10 ** 12]
+    dl2 = ["date.display\t%d" % t for t in secs]
+    good = ["Tue, 14 Nov 2023 22:13:20 +0000", "Tue, 14 Nov 2023 22:13:20 GMT", "Sunday, 06-Nov-94 08:49:37 GMT", "Sun Nov  6 08:49:37 1994", "Tue, 29 Feb 2000 00:00:00 +0000",
+            "Thu, 01 Jan 1970 00:00:00 +0000", "Fri, 31 Dec 9999 23:59:59 +0000", "Monday, 01-Jan-70 00:00:00 GMT", "Thursday, 31-Dec-69 23:59:59 GMT", "Wed Feb 29 12:00:00 2024", "Sat Mar  1 00:00:00 2025"]
+    hostile = list(good)
+    for g in good:
+        hostile += [" " + g, g + " ", "\t" + g + "\r\n", g + "\x0b", g[:-1], g[1:], g + "x", g.replace(":", ";", 1), g.replace("0", "O", 1), g.lower(), g.replace(" ", "  ", 1), g.replace("+0000", "+0100"), g.replace("+0000", "-0000"), g.replace("GMT", "UTC"),
+                    g.replace("Tue", "Wed"), g.replace("Nov", "Nob"), g.replace("14", "31"), g.replace("14", "32"), g.replace("14", "00"), g.replace("22:", "24:"), g.replace(":13:", ":60:"), g.replace(":20", ":60"), g.replace("2023", "1969"), g.replace("2023", "0000"), g + "+0000", g.replace("Feb", "Fév")]
+        for _ in range(6 if ctx.tier == "quick" else 60):
+            b = list(g)
+            for _ in range(rng.randint(1, 2)):
+                i = rng.randrange(len(b)); b[i] = rng.choice("0123456789 :,-+GMTabc\tJF")
+            hostile.append("".join(b))
+    dp = ["date.parse\t" + hx(U(x)) for x in hostile]
+    di2, dm2 = run_impl(dl2 + dp), run_model(dl2 + dp)
+    # what the implementation displays is parsed again on both sides
+    shown = [unhx(r.split("\t")[1]) for r in di2[:len(dl2)] if r.startswith("some")]
+    dp2 = ["date.parse\t" + hx(x) for x in shown]
+    di3, dm3 = run_impl(dp2), run_model(dp2)
+    ctx.count(len(dl2) + len(dp) + len(dp2))
+    date_diff = [(l, a, b) for l, a, b in zip(dl2 + dp + dp2, di2 + di3, dm2 + dm3) if a != b]
+    date_rt_bad = [(l, a) for l, a, t in zip(dp2, di3, [int(x.split("\t")[1]) for x, r in zip(dl2, di2) if r.startswith("some")]) if not a.startswith("some\t%d\t" % t)]
     ti = run_impl(tl)
     ctx.count(len(tl))
     tbad = [(l, r) for l, r in zip(tl, ti) if not (r == "eq" or r.startswith("eq\tzone-ok"))]
     ctx.cov["correspondence"] = {"mbox.parse/mboxes.parse": {"cases": 2 * len(strs), "exhaustive_alphabet": "a 1 @ \" \\ . < > SP , U+00E9 TAB", "exhaustive_maxlen": maxlen, "exhaustive_count": n_exh, "disagreements": len(diffs)},
                                  "mbox.display": {"cases": len(dl), "disagreements": len(ddiff)}, "mboxes.display": {"cases": len(ll), "disagreements": len(ldiff)},
-                                 "hdrs.ops": {"sequences": len(ol), "disagreements": len(odiff)}}
+                                 "hdrs.ops": {"sequences": len(ol), "disagreements": len(odiff)},
+                                 "date.display/date.parse": {"display": len(dl2), "parse_hostile": len(dp), "parse_of_displayed": len(dp2), "parsed_ok": sum(1 for x in di2[len(dl2):] if x.startswith("some")), "disagreements": len(date_diff)}}
     ctx.cov.setdefault("oracle_serde", {"serde_tied_to_display_and_fromstr": {"cases": len(sl), "failures": len(ser_bad)}})
     ctx.cov["oracle"] = {"display_then_parse_on_impl": {"mailboxes": len(cases), "lists": len(lists), "unexplained": len(unexpl), "known_class_hits": dict(hits)},
                          "typed_header_get_set_on_impl": {"cases": len(tl), "failures": len(tbad)}}
@@ -179,6 +204,11 @@ def run(ctx):
         ctx.violation({"kind": "oracle", "entry": "serde of Mailbox / Mailboxes", "line": ser_bad[0][0][:2000], "what": ser_bad[0][1][:600], "failures": len(ser_bad)})
     if tbad:
         ctx.violation({"kind": "oracle", "entry": "typed header stored and read back", "line": tbad[0][0], "impl": tbad[0][1][:300], "failures": len(tbad)})
+    if date_rt_bad:
+        ctx.violation({"kind": "oracle", "entry": "Date displayed and parsed again", "line": date_rt_bad[0][0], "impl": date_rt_bad[0][1][:200], "failures": len(date_rt_bad)})
+    if date_diff and not ctx.violations:
+        l, a, b = date_diff[0]
+        ctx.violation({"kind": "correspondence", "line": l[:300], "impl": a[:200], "model": b[:200], "disagreements": len(date_diff)}, nofail=True)
     if (diffs or ddiff or ldiff or odiff) and not ctx.violations:
         if diffs:
             kind, s, a, b = min(diffs, key=lambda t: len(t[1]))
